@@ -44,7 +44,7 @@ class SCase:
         return self._term
 
     def meta(self):
-        m = {"suite": "method", "kind": self.kind, "entry": self.entry, "line": self._line[:6000]}
+        m = {"suite": "method", "kind": self.kind, "entry": self.entry, "line": self._line[:400000]}
         m.update(self.extra)
         return m
 
